@@ -86,6 +86,7 @@ func (f *Nsubstitute) Call(s *slip.Scope, args slip.List, depth int) (result sli
 	switch seq := args[2].(type) {
 	case nil:
 		// nothing to replace
+		sr.checkBounds(0)
 	case slip.List:
 		result = sr.replace(seq)
 	case slip.String:
